@@ -472,7 +472,12 @@ def run_session(ops, op_timeout=20.0):
     out = []
     old = signal.signal(signal.SIGALRM, _alarm)
     try:
+        timed_out = False
         for o in ops:
+            if timed_out:
+                # after a hang the state of the library objects is unknown: do not continue
+                out.append({"err": "SkippedAfterTimeout"})
+                continue
             signal.setitimer(signal.ITIMER_REAL, op_timeout)
             try:
                 out.append({"ok": s.run_op(o)})
@@ -485,6 +490,8 @@ def run_session(ops, op_timeout=20.0):
                 if isinstance(e, (KeyboardInterrupt, SystemExit)):
                     raise
                 out.append({"err": err_name(e)})
+                if isinstance(e, OpTimeout):
+                    timed_out = True
             finally:
                 signal.setitimer(signal.ITIMER_REAL, 0)
     finally:
